@@ -556,21 +556,38 @@ func VPH_mainOutput() {
 	vp_Stub("github.com/github/git-sizer/sizes.ScanRepositoryUsingGraph", func(ctx context.Context, repo *git.Repository, roots []sizes.Root, ns sizes.NameStyle, pm meter.Progress) (sizes.HistorySize, error) {
 		return hs, nil
 	})
-	mode := vp_Choice("mode", 4)
-	args := [][]string{{}, {"--verbose"}, {"--critical"}, {"--json", "--json-version=1"}}[mode]
+	mode := vp_Choice("mode", 6)
+	args := [][]string{{}, {"--verbose"}, {"--critical"}, {"--json", "--json-version=1"}, {"--json", "--json-version=2"}, {"--show-refs"}}[mode]
+	if mode == 4 {
+		vp_Unstub("(*github.com/github/git-sizer/sizes.HistorySize).JSON")
+	}
 	var stdout, stderr bytes.Buffer
 	err := mainImplementation(context.Background(), &stdout, &stderr, args)
 	vp_Assert(err == nil, "runs")
 	if err != nil {
 		return
 	}
-	vp_Assert(stderr.Len() == 0, "nothing on stderr without --progress/--show-refs")
-	thr := []sizes.Threshold{1, 0, 30, 1}[mode]
-	if mode < 3 {
+	if mode == 5 {
+		vp_Assert(stderr.String() == "References (included references marked with '+'):\n+ refs/heads/x\n", "--show-refs lists every reference with its selection mark on stderr")
+	} else {
+		vp_Assert(stderr.Len() == 0, "nothing on stderr without --progress/--show-refs")
+	}
+	thr := []sizes.Threshold{1, 0, 30, 1, 1, 1}[mode]
+	if mode == 4 {
+		// JSON v2: one entry per metric, keyed by its symbol, built from the same scan result
+		vp_Assert(vp_JSONCalls() == 1, "JSON v2: the item map is marshalled once")
+		vals, ok := sizes.VP_ItemsSummary(vp_LastJSON())
+		vp_Assert(ok && len(vals) == 22, "JSON v2 has one entry per metric, keyed by the metric's own symbol")
+		vp_Assert(vals["maxCommitParentCount"] == 15 && vals["maxTreeEntries"] == 1999 && vals["uniqueBlobCount"] == 7 && vals["maxBlobSize"] == 0, "JSON v2 values are the scan result's measurements")
+		vp_Assert(stdout.String() == "null\n", "stdout is exactly the JSON document followed by one LF")
+		vp_Reach("end")
+		return
+	}
+	if mode < 3 || mode == 5 {
 		want := hs.TableString(nil, thr, sizes.NameStyleFull)
 		got := stdout.String()
 		// the refgroup rows depend on the grouper's groups, which have no tallies here: same text
-		vp_Assert(got == want, "stdout is exactly the table for the scan result and the effective threshold")
+		vp_Assert(got == want, "stdout is exactly the table for the scan result and the effective threshold (and unaffected by --show-refs)")
 		if mode == 2 {
 			vp_Assert(got == "No problems above the current threshold were found\n", "--critical on a harmless repository: the single 'no problems' line")
 		}
